@@ -289,7 +289,7 @@ def _one_shards(tier):
         if tier == "quick":
             out += [({"form": 1, "o": o, "nd": 2, "ct0": c, "ct1": d, "name_rot": 0, "tagmode": 3}, 1800) for c in range(5) for d in range(5)]
         else:
-            out += [({"form": 1, "o": o, "nd": 2, "ct0": c, "ct1": d}, 3000) for c in range(5) for d in range(5)]
+            out += [({"form": 1, "o": o, "nd": 2, "ct0": c, "ct1": d, "tagmode": 3}, 3000) for c in range(5) for d in range(5)]
     return out
 
 
@@ -298,7 +298,7 @@ def _two_shards(tier):
     if tier == "quick":
         out += [({"form": 1, "o0": a, "o1": b, "tagmode": 3}, 1800) for a in range(6) for b in range(6)]
     else:
-        out += [({"form": 1, "o0": a, "o1": b}, 3000) for a in range(6) for b in range(6)]
+        out += [({"form": 1, "o0": a, "o1": b, "tagmode": t}, 3000) for a in range(6) for b in range(6) for t in (0, 3)]
     return out
 
 
@@ -309,12 +309,12 @@ HARNESSES = [
                              "parameters, application/json, a type whose parameter value contains a comma}, 0..3 chunks each; octet-stream chunks are symbolic bytes of length <= 1 (any "
                              "value, empty allowed), text chunks concrete incl. an empty chunk and a chunk ending inside nothing; explicit "
                              "symbolic time tokens or none; run-level and/or test-level tags (two-detail case: fixed name rotation and tags)",
-                    "thorough": "two details with every pair of content types, all name rotations and tag modes"},
+                    "thorough": "two details with every pair of content types and all name rotations (tags on)"},
             rule="every path non-trivial", sym=("b0..b5", "t0", "t1"), twin_fix={"form": 0}),
     Harness("two", h_two, _two_shards,
             bounds={"quick": "two tests: every pair of outcomes, exc_info/plain forms with all tag modes, details form (one detail each under the "
                              "same name, 0..2 chunks, 4 content types; distinct test ids or the same id reported twice) with tags on",
-                    "thorough": "details form with all tag modes"},
+                    "thorough": "details form with tags off and on"},
             rule="every path non-trivial", sym=("b0", "b1", "b3", "b4", "t0..t3"), twin_fix={"form": 0}),
 ]
 OUTSIDE = ["more than two tests / two details / three chunks per detail; chunks longer than one byte",
